@@ -129,8 +129,8 @@ class ElectionProfile:
             equal_rank = False
             for rank in ranking:
                 for cid in set(rank):
-                    if cid in profile.withdrawn:
-                        rank.remove(cid)
+                    while cid in profile.withdrawn and cid in rank:
+                        rank.remove(cid)    # remove every occurrence
                 if len(rank) > 1:
                     equal_rank = True
             ranking = [rank for rank in ranking if len(rank)]   # strip empty ranks
